@@ -208,7 +208,7 @@ theorem readBitpacked_ok (buf : List Nat) (hbytes : ∀ b ∈ buf, b < 256) (ip0
              ip0 + max 1 ((header / 2 * 8 * w + 7) / 8)) := by
   unfold readBitpacked
   have h14 : ¬ (w = 1 ∧ (4 : Nat) = 1) := by omega
-  have h32 : ¬ (w ≥ 32) := by omega
+  have h32 : ¬ (w ≥ 31) := by omega
   have hrd : rd buf ip0 = .ok buf[ip0] := by simp [rd, h0]
   have hb : buf[ip0] < 256 := hbytes _ (List.getElem_mem h0)
   simp only [h14, if_false, h32, hrd, bind, Except.bind, and_ff _ hb]
